@@ -7,7 +7,7 @@
 # Results obtained here are not evidence; what is recorded in seeded/*/meta.json is re-run in /verif
 # against /repo (tools/try_mutant.sh).
 set -u
-C=/tmp/camp
+C=${CAMP:-/tmp/camp}
 case "${1:-}" in
   init)
     mkdir -p $C
